@@ -47,6 +47,8 @@ def must_see(tier):
         for lvl in ('first', 'middle', 'last'):
             m['%s:position:%s' % (impl, lvl)] = 10
         m[impl + ':height>=3'] = 5
+        m[impl + ':detected:inplace'] = 50
+        m[impl + ':detected:inplace-empty'] = 10
     return m
 
 
@@ -380,6 +382,71 @@ def run_tree(fam, kind, impl, rng, rec, ti):
                               shape=brief(w.shape, 200), **desc0)
                 continue
             rec.ev('%s:detected-on-ghost-tree' % impl)
+    # (c) damage done IN PLACE to a node of a live tree (__setstate__ on an
+    # object that already holds entries keeps its allocated vectors, cached
+    # sizes and links: not the same object as a freshly loaded one)
+    for _ in range(4):
+        try:
+            ct = surgeon.build(d, fam, kind, impl)
+        except Exception:
+            break
+        wk = walker.walk(ct, is_mapping, check_sizes=False)
+        leaves = [l for l in wk.leaf_objs if l is not None]
+        wk.release()
+        if len(leaves) < 2:
+            break
+        i = rng.randrange(len(leaves))
+        lf = leaves[i]
+        st = lf.__getstate__()
+        flat = st[0]
+        step = 2 if is_mapping else 1
+        nk_ = len(flat) // step
+        how = rng.choice(['empty', 'empty', 'swap', 'dup', 'drop-next'])
+        if how == 'swap' and nk_ >= 2:
+            fl = list(flat)
+            fl[0], fl[step] = fl[step], fl[0]
+            new = (tuple(fl),) + st[1:]
+        elif how == 'dup' and nk_ >= 2:
+            fl = list(flat)
+            fl[step] = fl[0]
+            new = (tuple(fl),) + st[1:]
+        elif how == 'drop-next' and len(st) > 1:
+            new = (flat,)
+        else:
+            how = 'empty'
+            new = ((),) + st[1:]
+        del leaves
+        try:
+            lf.__setstate__(new)
+        except Exception:
+            rec.ev('corruption-not-loadable:inplace-' + how)
+            continue
+        del lf
+        try:
+            wk = walker.walk(ct, is_mapping, check_sizes=False)
+            broken = breaks_property(wk)
+            wk.release()
+        except Exception as e:
+            broken = 'walker raised %s' % type(e).__name__
+        rec.evaluations += 1
+        if not broken:
+            rec.ev('benign:inplace-' + how)
+            continue
+        det, other = run_checkers(ct)
+        p_ = pos_of(i, 1 << 30) if False else (
+            'first' if i == 0 else 'last')
+        rec.seen(impl, kind, 'inplace-' + how, 'leaf', p_,
+                 'both' if len(det) == 2 else (sorted(det)[0] if det
+                                               else 'none'))
+        if not det:
+            rec.violation('corruption-not-detected',
+                          corruption='inplace-' + how, level='leaf',
+                          position=i, walker=brief(broken, 200), other=other,
+                          leaves=brief(w.leaf_keys, 300),
+                          shape=brief(w.shape, 200), **desc0)
+            continue
+        rec.ev('%s:detected:inplace-%s' % (impl, how))
+        rec.ev(impl + ':detected:inplace')
     if ti == 0 and kind == 'BTree':
         rec.sample(dict(desc0, leaves=brief(w.leaf_keys, 200),
                         shape=brief(w.shape, 100)))
